@@ -15,6 +15,19 @@ const Dialect = "v5"
 // Patch is the decoded patch type of the package under test.
 type Patch = jsonpatch.Patch
 
+// NativeOpts is the library's own options value (shared between calls where a check wants that).
+type NativeOpts = *jsonpatch.ApplyOptions
+
+// ApplyNative applies with a given (possibly shared) options value.
+func ApplyNative(doc, patch []byte, n NativeOpts) (out []byte, err error, decodeErr error) {
+	p, derr := jsonpatch.DecodePatch(patch)
+	if derr != nil {
+		return nil, nil, derr
+	}
+	out, err = p.ApplyWithOptions(doc, n)
+	return out, err, nil
+}
+
 // Native converts to the library's options.
 func (o Opts) Native() *jsonpatch.ApplyOptions {
 	return &jsonpatch.ApplyOptions{
